@@ -262,3 +262,48 @@ def client_residue(s, needles):
     for k, v in list(containers(s.manager, 'manager').items()) + list(containers(s, 'server').items()):
         find_refs(v, set(needles), k, out)
     return out
+
+
+class CWorld:
+    """a real Client / AsyncClient on the fake engine.io client; the harness plays the server"""
+
+    def __init__(self, asyncio_=False, chooser=None, P=None, max_steps=600, world=None, **kw):
+        self.asyncio_ = asyncio_
+        self.drv = AsyncDriver(chooser, max_steps) if asyncio_ else SyncDriver()
+        kw.setdefault('reconnection', False)
+        self.c, self.eio, self.P = make_client(asyncio_, P=P or inj_packet_class(), **kw)
+        self.eio.world = world
+        self.pos = 0
+        self.nsid = 0
+
+    def call(self, x):
+        return self.drv.call(x)
+
+    def recv(self, frame):
+        return self.call(self.eio.recv(frame))
+
+    def send(self, pkt):
+        """the server sends a packet"""
+        for f in encode_frames(pkt):
+            self.recv(f)
+
+    def take(self):
+        new = self.eio.out[self.pos:]
+        self.pos = len(self.eio.out)
+        return decode_frames(self.P, [f for f in new if not isinstance(f, tuple)])
+
+    def connect(self, namespaces=('/',), accept=True, **kw):
+        """client.connect(wait=False) followed by the server's CONNECT answers"""
+        self.call(self.c.connect('http://h', namespaces=list(namespaces), wait=False, **kw))
+        self.take()
+        if accept:
+            for ns in namespaces:
+                self.accept(ns)
+
+    def accept(self, ns):
+        self.nsid += 1
+        self.send(self.P(packet.CONNECT, data={'sid': 'sid%d' % self.nsid}, namespace=ns))
+        return 'sid%d' % self.nsid
+
+    def finish(self):
+        self.drv.finish()
